@@ -139,9 +139,14 @@ Definition moved_entry (kv : atom * pv) : option (path * path * value) :=
   | _, _ => None
   end.
 
+(* the members: a set, or - in a JSON-persisted delta - the list of its members (Delta applies
+   them with set.union / set.difference, which take any iterable) *)
+Definition atoms_of_list (xs : list pv) : option (list atom) :=
+  all_some (map (fun x => match x with PAtom a => Some a | _ => None end) xs).
 Definition set_entry (kv : atom * pv) : option (path * list atom) :=
   match path_of_key (fst kv), snd kv with
   | Some p, PSet xs => Some (p, xs)
+  | Some p, PList xs => match atoms_of_list xs with Some l => Some (p, l) | None => None end
   | _, _ => None
   end.
 
